@@ -15,7 +15,8 @@ CHECKS = {
     'C01': dict(
         cat='exploration',
         technique='offline oracle over command-side log and files of real '
-        'end-to-end runs',
+        'end-to-end runs (incl. equally named command / cross-check '
+        'executables that carry their spec)',
         text='Real bin/ddsmt runs over generated inputs x predicate families '
         'x strategies x -j x output formats x comparison options; afterwards '
         'the command and the cross-check command are re-run on the output '
@@ -26,7 +27,8 @@ CHECKS = {
     'C02': dict(
         cat='exploration',
         technique='quiescent-point sweep with the real mutators and checker '
-        'after reduce(); second real run on the output',
+        'after reduce(); second real run on the output; constructed '
+        'schedules (slow unique success as last result of a sweep)',
         text='After strategy_hierarchical.reduce returns inside the real '
         'process, a monitor re-enumerates every proposal of every enabled '
         'mutator on the final input and runs the real checker on each; in '
@@ -36,7 +38,9 @@ CHECKS = {
     'C03': dict(
         cat='exploration',
         technique='proposal-graph search for no-ops/cycles/pumps with real '
-        'mutators in both replace-by-variable modes, confirmation by real '
+        'mutators in both replace-by-variable modes (exhaustive depth 2 '
+        'growth-first, growth-first depth 3-4, same-size depth 3-4, walks '
+        'with all successors checked against the path), confirmation by real '
         'runs against a set: predicate, per-call step/allocation budgets via '
         'sys.monitoring (also on deep/wide terms), bounded progress of real '
         'runs',
@@ -49,7 +53,9 @@ CHECKS = {
     'C04': dict(
         cat='exploration',
         technique='black-box exit-status and uncaught-traceback monitor on '
-        'the real executables over structure-fuzzed inputs and usage errors; '
+        'the real executables over structure-fuzzed inputs and usage errors '
+        '(15 cases x 2 entry points), non-text command output, injected '
+        'failures of single checks; '
         'differential isolation oracle with exceptions injected into one '
         'mutator',
         text='The real bin/ddsmt and python -m ddsmt are run on well-formed, '
@@ -86,7 +92,9 @@ CHECKS = {
     'C07': dict(
         cat='exploration',
         technique='reference lexer/reader as oracle over the four real '
-        'renderers, on well-formed and cut-off/damaged texts',
+        'renderers, on well-formed and cut-off/damaged texts; verbatim / '
+        'subsequence oracle on every candidate file and output state of '
+        'real runs (launcher hook) with multi-byte text',
         text='Trees produced by ddSMT\'s own parser from generated lexical '
         'corner cases are rendered by the four real renderers; an '
         'independent reader must get the same tokens and tree back from '
@@ -113,7 +121,9 @@ CHECKS = {
     'C10': dict(
         cat='fault_enumeration',
         technique='faulty commands (sleep/spin/alloc/abort/segv/kill) per '
-        'candidate placement; exec durations, verdicts, /proc liveness',
+        'candidate placement, in the command or the cross-check command; '
+        'exec durations, verdicts, /proc liveness; minimisation outcome '
+        'when the golden run itself crashes or exceeds the limit',
         text='Real runs in which chosen candidates make the command hang, '
         'spin, allocate or die; the monitor checks verdicts, the duration of '
         'every execute, that no command process survives, and the golden-run '
@@ -122,7 +132,9 @@ CHECKS = {
     'C11': dict(
         cat='exploration',
         technique='nested-list substitution model vs apply_simp/substitute; '
-        'identity and base-immutability assertions',
+        'identity and base-immutability assertions; the same model against '
+        'the real ddmin _worker / hierarchical Consumer.check over '
+        'histories of pickled inputs',
         text='Generated trees and simplifications (id keys, structural keys, '
         'self-containing replacements, deletions, declarations) applied by '
         'the real code and by an independent model; object identity of '
@@ -141,7 +153,8 @@ CHECKS = {
         cat='exploration',
         technique='id-uniqueness invariant hooked at TaskGenerator/Producer '
         'construction in real runs (incl. runs in which fresh declarations '
-        'are accepted); reduplicate vs model on DAGs',
+        'are accepted or functions inlined); reduplicate vs model on DAGs '
+        'and on histories of calls in one process',
         text='In real runs every list handed to a task generator is checked '
         'for repeated node ids; reduplicate is compared with a model on '
         'generated DAGs with arbitrary sharing.',
@@ -168,7 +181,8 @@ CHECKS = {
     'C16': dict(
         cat='exploration',
         technique='generator typing as ground truth vs get_sort/get_bv_width '
-        'at every term position over sequences of scripts in one process; '
+        'at every term position over sequences of scripts in one process, '
+        'incl. terms nested beyond the recursion limit; '
         'cvc5 as reference sort checker for same-sort replacements; '
         'answers-now vs answers-after-fresh-collection invariant hooked '
         'into real runs',
